@@ -955,6 +955,7 @@ func TestC14(t *testing.T) {
 		"deadline armed afresh within [before+T, after+T] immediately before every Read/Write. distinct = scenario instances")
 	rep.RuleAdd("Also: silence that begins in the middle of a frame; a clean disconnect (io.EOF) right after a failed write (cause still EOF); active peers with a stalled writer; slow-failing opens. Connection attempts hanging for the whole dial timeout: next start no earlier than dial timeout + reconnect delay after the previous start.")
 	rep.RuleAdd("Rounds 12-15: silence beginning in mid-frame, EOF after a failed write, dial gaps (lower bound), idle expiry with an upper bound of 2T+3 s, resets while the application is busy, UDP clients to closed ports, read failures that call themselves temporary.")
+	rep.RuleAdd("Rounds 16-17: a UDP client whose old local port is taken during the reconnect delay; a serial device that goes away for good (node closed while it is away); re-open attempts failing with the real opener's error value; a TCP client whose host name moves to another address.")
 	rep.Assume("idle 'not closed while active' is judged only if the harness's own largest send gap stayed below T/2, else inconclusive")
 	seed := shardSeed()
 	shard, nsh := shardInfo()
